@@ -59,6 +59,12 @@ H(name="c19_x25519_plumbing", crate="kestrel-crypto", props=["C19", "C05"], est_
 H(name="c19_hkdf_plumbing", crate="kestrel-crypto", props=["C19", "C06"], est_s=15,
   desc="hkdf_sha256(salt, ikm, info, len) = orion HKDF-SHA256 derive_key(salt, ikm, Some(info)) into len bytes",
   funcs=["hkdf_sha256"], bounds="salt/ikm/info 0..12 bytes, len 1..34", env=["orion hkdf::sha256::derive_key recorder"], outside="orion == RFC 5869")
+H(name="c19_hmac_plumbing", crate="kestrel-crypto", mod="verif_wrap_x", ext=True, props=["C19", "C06"], est_s=15, replay="model",
+  desc="hmac_sha256(key, data) hands the whole key (0..140 bytes: also keys longer than the 64-byte block) and the whole data to orion HMAC-SHA256 and returns its tag unchanged",
+  funcs=["hmac_sha256"], bounds="key 0..140 bytes, data 0..16 bytes (pointer/length identity: contents unconstrained)", env=["orion hmac::sha256::SecretKey::from_slice recorder (opaque key object)", "orion HmacSha256::hmac recorder with unconstrained 32-byte result"], outside="orion == RFC 2104 / FIPS 180-4")
+H(name="c19_sha256_plumbing", crate="kestrel-crypto", mod="verif_wrap_x", ext=True, props=["C19"], est_s=15, replay="model",
+  desc="sha256(data) = orion SHA-256 digest of the whole input, returned unchanged",
+  funcs=["sha256"], bounds="data 0..140 bytes", env=["orion Sha256::digest recorder with unconstrained 32-byte result"], outside="orion == FIPS 180-4")
 H(name="c06_hkdf_noise_lockstep", crate="kestrel-crypto", props=["C06", "C05"], est_s=20,
   desc="hkdf_noise == Noise HKDF (two outputs) for EVERY function HMAC could be: t=HMAC(ck,ikm); o1=HMAC(t,01); o2=HMAC(t,o1||02)",
   funcs=["hkdf_noise"], bounds="all 32-byte chaining keys, ikm of 0 or 32 bytes", env=["hmac_sha256 as an uninterpreted function (record/replay)"], outside="HMAC-SHA256 itself")
